@@ -336,6 +336,13 @@ func genGcsProgram(r *rand.Rand, p gcsProfile) []gcs.Op {
 				// the same source once more, this time conditioned (on its current or on another generation)
 				op.Srcs = append(op.Srcs, gcs.Src{N: op.Srcs[0].N, Gm: gcs.Cond{K: "val", Sym: []string{"other", "cur", "other"}[g.pick(3)]}})
 			}
+			if len(op.Srcs) > 0 && g.chance(0.3) {
+				// sources (and perhaps the destination) whose metadata was updated: the result takes its metadata from the
+				// request and starts at metageneration 1 all the same
+				for _, sn := range []j.B{op.Srcs[0].N, op.Srcs[len(op.Srcs)-1].N, n}[:2+g.pick(2)] {
+					prog = append(prog, gcs.Op{Ev: "Patch", B: b, N: sn, Attrs: []gcs.KV{{K: "cd", V: j.S("inline; filename=s")}}, Meta: []gcs.KVB{{K: j.S("src"), V: j.S("1")}}, Conds: gcs.NoConds()})
+				}
+			}
 			prog = append(prog, op)
 		case x < p.wUpload+p.wResum+p.wPatch+p.wDelete+p.wRead+p.wCompose+p.wCopy:
 			if g.chance(0.4) { // a source whose metadata was updated (once or twice): the copy still starts at metageneration 1
